@@ -25,6 +25,9 @@ Lemma suffix_length r' r : suffix r' r -> (length r' <= length r)%nat.
 Proof. intros [p ->]. rewrite app_length. lia. Qed.
 
 (* ---------- line breaks ---------- *)
+Lemma frev_eq l : frev l = rev l.
+Proof. unfold frev. symmetry. apply rev_alt. Qed.
+
 Lemma peek_hd0 r : peek r = hd0 r.
 Proof. reflexivity. Qed.
 
